@@ -233,7 +233,7 @@ func runCell(c Cell) (outcome, error) {
 	}
 	srv, err := miniserver.New(miniserver.Options{
 		Storage:    st,
-		RoutingTTL: 30 * time.Second,
+		RoutingTTL: time.Hour, // not the subject here; wall-clock lifetimes must not run out on a stalled machine
 		BruteForce: &security.BruteForceConfig{MaxFailures: 100000, TimeWindow: time.Hour, BanDuration: time.Hour, PermanentBanAt: 1000000, CleanupInterval: time.Hour},
 		IPRate:     &security.RateLimitConfig{Rate: 100000, Burst: 100000, TTL: time.Hour},
 	})
@@ -437,7 +437,7 @@ func runCell(c Cell) (outcome, error) {
 		defer st2.Close()
 		srv2, err := miniserver.New(miniserver.Options{
 			Storage:    st2,
-			RoutingTTL: 30 * time.Second,
+			RoutingTTL: time.Hour, // not the subject here; wall-clock lifetimes must not run out on a stalled machine
 			BruteForce: &security.BruteForceConfig{MaxFailures: 100000, TimeWindow: time.Hour, BanDuration: time.Hour, PermanentBanAt: 1000000, CleanupInterval: time.Hour},
 			IPRate:     &security.RateLimitConfig{Rate: 100000, Burst: 100000, TTL: time.Hour},
 		})
@@ -515,8 +515,11 @@ func runCell(c Cell) (outcome, error) {
 		out.acked, out.success, out.ackErr = true, ack.Success, ack.Error
 	}
 	// attached on this node?
+	ownTunnel := false
 	if br := srv.SM.GetTunnelBridgeByConnectionID(rq.ConnID); br != nil {
 		out.attached = true
+		// ... to a NEW bridge of the requester's own mapping (the server saw no tunnel under this id)?
+		ownTunnel = own != nil && br.GetMappingID() == own.ID
 	}
 	if br := srv.SM.GetTunnelBridgeByConnectionID("6.6.6.6:6006"); br != nil {
 		out.attached = true
@@ -571,6 +574,12 @@ func runCell(c Cell) (outcome, error) {
 	case c.Cred == "other-mapping" && c.TState == "none":
 		// opening a fresh tunnel on one's own valid mapping is that mapping's business, not this one's
 		out.dontCare = true
+	case c.Cred == "other-mapping" && (c.TState == "remote" || c.TState == "local-route") && ownTunnel && !out.remote && out.leaked == "":
+		// the routing record of the victim's tunnel was not in force when the request arrived (its lifetime is wall-clock
+		// time; a stalled machine can outlast it): the server then treated the request as what it also is, a fresh
+		// tunnel on the requester's own mapping - as in the tunnel-state "none" case, that is not this mapping's business
+		out.dontCare = true
+		vkit.Class("routing-record-not-in-force: requester opened a tunnel of its own mapping")
 	case c.Cred == "other-mapping":
 		out.entitled = false
 	case !authed || !valid:
